@@ -24,6 +24,7 @@ class FabricRun(object):
     self.max_live = {'fabric.fifo': 0, 'fabric.lifo': 0}
     self.pq_violations = []
     self.events = {}
+    self.last_pub = {}
     self.aos = {}
     self.ao_dispatch = []
     self.ao_wakes = []
@@ -111,12 +112,22 @@ class FabricRun(object):
           e = ev.Event(signal=sig, payload=uid)
           self.events[uid] = e
           self.pubs[uid] = {'sig': sig, 'prio': 1000 if prio is None else prio, 'begin': b, 'end': None, 'client': k,
-                            'running': self.kernel_alive()}
+                            'running': self.kernel_alive(), 'calls': [[b, None]]}
+          self.last_pub[k] = uid
           if prio is None:
             f.publish(e)
           else:
             f.publish(e, priority=prio)
           self.pubs[uid]['end'] = sim.seq
+          self.pubs[uid]['calls'][0][1] = sim.seq
+        elif kind == 'republish':
+          # the very same Event object is published once more
+          uid = self.last_pub.get(k)
+          if uid is not None:
+            call = [b, None]
+            self.pubs[uid]['calls'].append(call)
+            f.publish(self.events[uid])
+            call[1] = sim.seq
         elif kind == 'start':
           f.start()
         elif kind == 'stop':
